@@ -13,7 +13,7 @@ namespace Mdsort.Proofs.Conf
 open Mdsort Mdsort.Model Mdsort.Spec
 
 /-- The parser state sits in front of the written tokens `ts`, with lookahead `la`. -/
-structure Strm (s : PState) (la : Option PTok) (ts : List PTok) : Prop where
+structure Strm (s : ParseSt) (la : Option PTok) (ts : List PTok) : Prop where
   la_eq : s.la = la.map tkOf
   rest_eq : s.rest = Spec.render ts
   am : s.afterMacro = false
@@ -21,14 +21,14 @@ structure Strm (s : PState) (la : Option PTok) (ts : List PTok) : Prop where
   ok : ∀ t ∈ ts, tokOK t = true
 
 /-- The upcoming tokens are `ts`. -/
-def Up (s : PState) (ts : List PTok) : Prop :=
+def Up (s : ParseSt) (ts : List PTok) : Prop :=
   Strm s none ts ∨ ∃ t ts', ts = t :: ts' ∧ tokOK t = true ∧ Strm s (some t) ts'
 
-theorem Strm.up_none {s : PState} {ts : List PTok} (h : Strm s none ts) : Up s ts := Or.inl h
-theorem Strm.up_some {s : PState} {t : PTok} {ts : List PTok} (h : Strm s (some t) ts) (ht : tokOK t = true) :
+theorem Strm.up_none {s : ParseSt} {ts : List PTok} (h : Strm s none ts) : Up s ts := Or.inl h
+theorem Strm.up_some {s : ParseSt} {t : PTok} {ts : List PTok} (h : Strm s (some t) ts) (ht : tokOK t = true) :
     Up s (t :: ts) := Or.inr ⟨t, ts, rfl, ht, h⟩
 
-theorem Up.ok {s : PState} {ts : List PTok} (h : Up s ts) : ∀ t ∈ ts, tokOK t = true := by
+theorem Up.ok {s : ParseSt} {ts : List PTok} (h : Up s ts) : ∀ t ∈ ts, tokOK t = true := by
   rcases h with h | ⟨t, ts', rfl, ht, h⟩
   · exact h.ok
   · intro x hx
@@ -37,12 +37,12 @@ theorem Up.ok {s : PState} {ts : List PTok} (h : Up s ts) : ∀ t ∈ ts, tokOK 
     · exact ht
     · exact h.ok x hx
 
-abbrev NoErr : PState → Prop := fun _ => False
+abbrev NoErr : ParseSt → Prop := fun _ => False
 
-variable {α : Type} {Q : α → PState → Prop}
+variable {α : Type} {Q : α → ParseSt → Prop}
 
 /-- `peek` in front of a written token. -/
-theorem wp_peek_up (cx : PCtx) (pf sf : Bool) {Q : Tk → PState → Prop} {s : PState} {t : PTok} {ts : List PTok}
+theorem wp_peek_up (cx : PCtx) (pf sf : Bool) {Q : Tk → ParseSt → Prop} {s : ParseSt} {t : PTok} {ts : List PTok}
     (h : Up s (t :: ts)) (hm : modeOK pf sf t = true)
     (hQ : ∀ s', Strm s' (some t) ts → Q (tkOf t) s') : wp (peek cx pf sf) Q NoErr True s := by
   have htok : tokOK t = true := h.ok t (by simp)
@@ -62,7 +62,7 @@ theorem wp_peek_up (cx : PCtx) (pf sf : Bool) {Q : Tk → PState → Prop} {s : 
     exact hQ s h
 
 /-- `peek` at the end of the written text. -/
-theorem wp_peek_end (cx : PCtx) (pf sf : Bool) {Q : Tk → PState → Prop} {s : PState}
+theorem wp_peek_end (cx : PCtx) (pf sf : Bool) {Q : Tk → ParseSt → Prop} {s : ParseSt}
     (h : Up s []) (hQ : ∀ s', s'.macros = [] → Q .eof s') : wp (peek cx pf sf) Q NoErr True s := by
   rcases h with h | ⟨t', ts', heq, _, h⟩
   · unfold wp peek
@@ -73,7 +73,7 @@ theorem wp_peek_end (cx : PCtx) (pf sf : Bool) {Q : Tk → PState → Prop} {s :
     exact hQ _ h.mac
   · cases heq
 
-theorem wp_shift_up {Q : Unit → PState → Prop} {s : PState} {t : PTok} {ts : List PTok}
+theorem wp_shift_up {Q : Unit → ParseSt → Prop} {s : ParseSt} {t : PTok} {ts : List PTok}
     (h : Strm s (some t) ts) (hQ : ∀ s', Up s' ts → Q () s') : wp shift Q NoErr True s := by
   have hsh : shift s = PRes.ok () { s with la := none } := by
     unfold shift
@@ -136,7 +136,7 @@ theorem render_noNl (ts : List PTok) (h : ∀ t ∈ ts, tokOK t = true) : countN
     simp only [countNl] at h1 h2 ⊢
     simp [List.count_cons, List.count_append, h1, h2]
 
-theorem wp_curLine_strm (cx : PCtx) (hnl : cx.nl = 0) {Q : Nat → PState → Prop} {s : PState} {la : Option PTok}
+theorem wp_curLine_strm (cx : PCtx) (hnl : cx.nl = 0) {Q : Nat → ParseSt → Prop} {s : ParseSt} {la : Option PTok}
     {ts : List PTok} (h : Strm s la ts) (hQ : Q 1 s) : wp (curLine cx) Q NoErr True s := by
   rw [wp_curLine]
   have : lineOf cx.nl s.rest = 1 := by
@@ -144,7 +144,7 @@ theorem wp_curLine_strm (cx : PCtx) (hnl : cx.nl = 0) {Q : Nat → PState → Pr
   rw [this]
   exact hQ
 
-theorem wp_curLine_up (cx : PCtx) (hnl : cx.nl = 0) {Q : Nat → PState → Prop} {s : PState} {ts : List PTok}
+theorem wp_curLine_up (cx : PCtx) (hnl : cx.nl = 0) {Q : Nat → ParseSt → Prop} {s : ParseSt} {ts : List PTok}
     (h : Up s ts) (hQ : Q 1 s) : wp (curLine cx) Q NoErr True s := by
   rcases h with h | ⟨t, ts', _, _, h⟩
   · exact wp_curLine_strm cx hnl h hQ
@@ -197,38 +197,38 @@ theorem expandStrs_plain (home : Bytes) (action : Bool) : ∀ (l : List Bytes), 
     intro h
     simp only [expandStrs, expandStr_plain home action b (h b (by simp)), ih (fun x hx => h x (by simp [hx]))]
 
-theorem state_macros_nil (s : PState) (h : s.macros = []) : { s with macros := [] } = s := by
+theorem state_macros_nil (s : ParseSt) (h : s.macros = []) : { s with macros := [] } = s := by
   cases s; simp_all
 
-theorem wp_expandOne_up (cx : PCtx) (action : Bool) (b : Bytes) (hb : strOK b = true) {Q : Bytes → PState → Prop}
-    {s : PState} {ts : List PTok} (h : Up s ts) (hQ : Q b s) : wp (expandOne cx action b) Q NoErr True s := by
+theorem wp_expandOne_up (cx : PCtx) (action : Bool) (b : Bytes) (hb : strOK b = true) {Q : Bytes → ParseSt → Prop}
+    {s : ParseSt} {ts : List PTok} (h : Up s ts) (hQ : Q b s) : wp (expandOne cx action b) Q NoErr True s := by
   have hm : s.macros = [] := by
     rcases h with h | ⟨_, _, _, _, h⟩ <;> exact h.mac
   unfold wp expandOne
   rw [hm, expandStr_plain cx.home action b hb]
   simp only
-  rw [← hm, show ({ s with macros := s.macros } : PState) = s from by cases s; rfl]
+  rw [← hm, show ({ s with macros := s.macros } : ParseSt) = s from by cases s; rfl]
   exact hQ
 
 theorem wp_expandAll_up (cx : PCtx) (action : Bool) (l : List Bytes) (hl : ∀ b ∈ l, strOK b = true)
-    {Q : List Bytes → PState → Prop} {s : PState} {ts : List PTok} (h : Up s ts) (hQ : Q l s) :
+    {Q : List Bytes → ParseSt → Prop} {s : ParseSt} {ts : List PTok} (h : Up s ts) (hQ : Q l s) :
     wp (expandAll cx action l) Q NoErr True s := by
   have hm : s.macros = [] := by
     rcases h with h | ⟨_, _, _, _, h⟩ <;> exact h.mac
   unfold wp expandAll
   rw [hm, expandStrs_plain cx.home action l hl]
   simp only
-  rw [← hm, show ({ s with macros := s.macros } : PState) = s from by cases s; rfl]
+  rw [← hm, show ({ s with macros := s.macros } : ParseSt) = s from by cases s; rfl]
   exact hQ
 
 /-! ## Small parsers -/
 
 /-- `p` reads the tokens `ts0` and returns `v`. -/
 def RT {α : Type} (p : PM α) (v : α) (ts0 : List PTok) : Prop :=
-  ∀ (s : PState) (ts : List PTok), Up s (ts0 ++ ts) → wp p (fun a s' => a = v ∧ Up s' ts) NoErr True s
+  ∀ (s : ParseSt) (ts : List PTok), Up s (ts0 ++ ts) → wp p (fun a s' => a = v ∧ Up s' ts) NoErr True s
 
 /-- Use a read-back lemma inside a `wp` goal. -/
-theorem wp_of_rt {α : Type} {p : PM α} {v : α} {ts0 ts : List PTok} {Q : α → PState → Prop} {s : PState}
+theorem wp_of_rt {α : Type} {p : PM α} {v : α} {ts0 ts : List PTok} {Q : α → ParseSt → Prop} {s : ParseSt}
     (h : RT p v ts0) (hs : Up s (ts0 ++ ts)) (hQ : ∀ s', Up s' ts → Q v s') : wp p Q NoErr True s :=
   wp_mono (h s ts hs) (fun a s' ⟨ha, hu⟩ => ha ▸ hQ s' hu) (fun _ h => h)
 
